@@ -2,6 +2,7 @@ package harness
 
 import (
 	"context"
+	"encoding/binary"
 	"encoding/json"
 	"errors"
 	"fmt"
@@ -699,7 +700,7 @@ func runTCPCase(t *testing.T, method string, capab int) (sx, sx) {
 	}
 	var out sx
 	var outHead []sx
-	tupleMismatch, endpointMismatch, drained := 0, 0, 0
+	tupleMismatch, endpointMismatch, drained, foreignHops := 0, 0, 0, 0
 	// a real-time limit on waiting for the run's TCP connection (made outside the bubble: a timer of the bubble's virtual
 	// clock could not fire while a goroutine waits on the accept channel)
 	giveUp := make(chan struct{})
@@ -713,6 +714,19 @@ func runTCPCase(t *testing.T, method string, capab int) (sx, sx) {
 		nHandles := 0
 		f.onNew = func(h *wireHandle) {
 			nHandles++
+			// every SYN probe is "answered" by a time-exceeded that quotes it with ANOTHER source port (the probe of another
+			// flow from this host, e.g. a concurrent query): with strict quoted-source checking - nobody asked for the
+			// relaxed one - such an error never becomes a hop
+			h.snk.mu.Lock()
+			h.snk.onWrite = func(p outPkt) {
+				b := p.data
+				if len(b) >= 40 && b[0]>>4 == 4 && b[9] == 6 && b[33]&0x12 == 0x02 {
+					q := append([]byte(nil), b[:28]...)
+					binary.BigEndian.PutUint16(q[20:], binary.BigEndian.Uint16(q[20:])+1)
+					h.src.inject(te4([4]byte{10, 9, 0, b[8]}, lo, 11, 0, q, nil, [4]byte{}), time.Time{})
+				}
+			}
+			h.snk.mu.Unlock()
 			// only the SACK attempt's handle (the first one of a sack / prefer_sack run) reads a handshake
 			if nHandles != 1 || method == "syn" {
 				return
@@ -794,6 +808,13 @@ func runTCPCase(t *testing.T, method string, capab int) (sx, sx) {
 			}()
 			trRun, err = traceroute.VerifRunTracerouteOnce(context.Background(), p, dport)
 		}()
+		if err == nil && trRun != nil {
+			for _, hp := range trRun.Hops {
+				if hp != nil && len(hp.IPAddress) > 0 {
+					foreignHops++
+				}
+			}
+		}
 		// the endpoints a successful run reports are those of the TCP probes written through one of its handles (the
 		// handle of the attempt that produced the result: a prefer_sack run may have abandoned a SACK attempt first)
 		if err == nil && trRun != nil {
@@ -866,7 +887,7 @@ func runTCPCase(t *testing.T, method string, capab int) (sx, sx) {
 			status = 1
 		}
 		outHead = []sx{sxInt(int64(status)), sxBool(err != nil && errors.As(err, &ns)), sxBool(err != nil && errors.Is(err, injectedCause)),
-			sxInt(int64(syn)), sxInt(int64(ackpsh)), sxInt(int64(accepted.Load())), closes, sxInt(int64(tupleMismatch)), sxInt(int64(endpointMismatch)), sxInt(int64(drained))}
+			sxInt(int64(syn)), sxInt(int64(ackpsh)), sxInt(int64(accepted.Load())), closes, sxInt(int64(tupleMismatch)), sxInt(int64(endpointMismatch)), sxInt(int64(drained)), sxInt(int64(foreignHops))}
 	})
 	if ln != nil {
 		ln.Close()
